@@ -33,5 +33,7 @@ pub struct Nlp {
 
     /// Node, lap and position of each player.
     #[br(count = nump)]
+    // the packet size is a multiple of 4: 2 spare bytes follow an odd number of cars
+    #[bw(pad_after = if info.len() % 2 == 1 { 2 } else { 0 })]
     pub info: Vec<NodeLapInfo>,
 }
